@@ -100,7 +100,8 @@ def actual_errors(result):
     return out
 
 
-def check_response(props, config, exp, result, locations=True):
+def check_response(props, config, exp, result, locations=True,
+                   line_shift=0):
     """Ordered data and error multiset against the model.  ``locations`` is
     false for documents parsed without location tracking."""
     out = []
@@ -111,6 +112,12 @@ def check_response(props, config, exp, result, locations=True):
             "first difference (%s) at %r" % (d[0], d[1]),
         ))
     acts = actual_errors(result)
+    if line_shift:
+        # the same document submitted with ``line_shift`` more leading line
+        # breaks: positions are those of THIS request's text
+        for a in acts:
+            a["locs"] = frozenset((ln - line_shift if ln else ln, col)
+                                  for ln, col in a["locs"])
     by_path = {}
     for a in acts:
         if a["path"] in by_path:
